@@ -136,7 +136,7 @@ void archiveCases(Ctx& ctx, int part)
 }
 
 // ---- (2) resource manager ----
-struct Layout { std::map<std::string, int> place; /* bit0 loose, bit1 v1.vol, bit2 v2.vol */ std::string rootName; bool unsortedVolumes = false; };
+struct Layout { std::map<std::string, int> place; /* bit0 loose, bit1 v1.vol, bit2 v2.vol */ std::string rootName; bool unsortedVolumes = false; int rootSpelling = 0; /* 0 absolute, 1 "", 2 ".", 3 "./", 4 absolute + "/", 5 "../<name>" from a sub-directory */ };
 
 std::string contentOf(const std::string& name, const char* where) { return name + "@" + where; }
 
@@ -167,8 +167,19 @@ void resourceLayout(Ctx& ctx, const Layout& L, const std::string& label)
 	auto memberContent = [&](const std::string& arch, const std::string& member) { return arch == "music.clm" ? "pcm-" + member : contentOf(member, arch == "v1.vol" ? "v1" : "v2"); };
 
 	auto bad = [&](const std::string& c, const std::string& key, const std::string& d) { ctx.violation("C17/resources/" + c, label + " " + key, d); };
+	// the same directory under different spellings (relative ones are resolved against the working directory, which stays put for the whole layout)
+	std::string ctorArg = root;
+	switch (L.rootSpelling) {
+	case 1: if (::chdir(root.c_str()) != 0) std::abort(); ctorArg = ""; break;
+	case 2: if (::chdir(root.c_str()) != 0) std::abort(); ctorArg = "."; break;
+	case 3: if (::chdir(root.c_str()) != 0) std::abort(); ctorArg = "./"; break;
+	case 4: ctorArg = root + "/"; break;
+	case 5: if (::chdir((root + "/sub").c_str()) != 0) std::abort(); ctorArg = "../../" + L.rootName; break;
+	default: break;
+	}
+	ctx.count(("resources/root-spelling-" + std::to_string(L.rootSpelling)).c_str());
 	std::unique_ptr<ResourceManager> rm;
-	auto oc = mc::guarded([&] { rm = std::make_unique<ResourceManager>(root); });
+	auto oc = mc::guarded([&] { rm = std::make_unique<ResourceManager>(ctorArg); });
 	ctx.transition();
 	if (oc.cls != 'R') { bad("construction-throws", "", oc.what); mc::removeTree(base); return; }
 	std::vector<std::string> order;   // archive file names in load order
@@ -273,6 +284,7 @@ void resourceLayout(Ctx& ctx, const Layout& L, const std::string& label)
 	}
 	ctx.state(); ctx.trace();
 	rm.reset();
+	if (::chdir("/") != 0) std::abort();
 	mc::removeTree(base);
 }
 
@@ -286,6 +298,7 @@ void build(Ctx& ctx)
 		Layout L; L.place["a.txt"] = a; L.place["B.TXT"] = b; L.place["c.map"] = c; L.place["s"] = ctx.thorough ? (s ? 7 : 2) : ((a * 3 + b) % 8);
 		L.rootName = (a + b + c) % 4 == 0 ? "txt_a_vol_root" : "res";
 		L.unsortedVolumes = ((a ^ b ^ c ^ s) & 1) != 0;
+		L.rootSpelling = int((gLayouts.size() * 7 + std::size_t(a)) % 6);
 		gLayouts.push_back(L);
 	}
 }
@@ -299,7 +312,8 @@ void runCase(std::size_t i, Ctx& ctx)
 	std::size_t k = i - 8;
 	for (std::size_t j = k * kLayoutChunk; j < std::min(gLayouts.size(), (k + 1) * kLayoutChunk); ++j) {
 		const Layout& L = gLayouts[j];
-		std::string label = "layout[" + L.rootName + (L.unsortedVolumes ? ", volume members in reverse order" : "") + "]";
+		static const char* spell[] = { "absolute", "\"\"", "\".\"", "\"./\"", "absolute/", "../../name from sub" };
+		std::string label = "layout[" + L.rootName + " as " + spell[L.rootSpelling] + (L.unsortedVolumes ? ", volume members in reverse order" : "") + "]";
 		for (auto& p : L.place) label += " " + p.first + ":" + std::string(p.second & 1 ? "L" : "-") + (p.second & 2 ? "1" : "-") + (p.second & 4 ? "2" : "-");
 		resourceLayout(ctx, L, label);
 		ctx.outcome(mc::fnv(label));
